@@ -12,6 +12,7 @@
 // equality between the projection and the expectation.
 
 mod fam_buffers;
+mod fam_cycles;
 mod fam_options;
 mod fam_preproc;
 mod fam_wire;
@@ -78,6 +79,7 @@ pub fn make_family(name: &str) -> Option<Box<dyn Family>> {
         "options" => Some(Box::new(fam_options::Options::default())),
         "buffers" => Some(Box::new(fam_buffers::Buffers::default())),
         "preproc" => Some(Box::new(fam_preproc::Preproc::default())),
+        "cycles" => Some(Box::new(fam_cycles::Cycles::default())),
         "wire" => Some(Box::new(fam_wire::Wire::default())),
         _ => None,
     }
